@@ -5,7 +5,7 @@
 // One inductive step per query: an arbitrary store content (<= 2 records over the ids {A, B},
 // arbitrary states and deadlines, stale records included), an arbitrary instant, ONE operation
 // with arbitrary arguments, compared with a reference map-with-deadlines. Time is a symbolic
-// variable (the `Timestamp::now()` of the shim), so "exactly at the deadline" and "one second
+// variable (the `Timestamp::now()` of the shim, in ticks of a quarter second), so "exactly at the deadline" and "one tick
 // after" are ordinary cases. Sequential only: the lock is the uncontended shim.
 // ------------------------------------------------------------------------------------------------
 #![allow(dead_code, unused_imports, clippy::all)]
@@ -13,7 +13,7 @@
 use super::*;
 #[path = "nd.rs"]
 mod nd;
-use pavex::time::verif_set_now;
+use pavex::time::{verif_duration, verif_set_now, verif_ticks};
 use serde_json::Value;
 
 fn fmt_stub(_a: std::fmt::Arguments<'_>) -> String {
@@ -25,6 +25,12 @@ fn fmt_stub(_a: std::fmt::Arguments<'_>) -> String {
 fn vtrace_world(_w: &World) {}
 #[cfg(not(test))]
 fn vtrace_op(_name: &str, _i: usize, _j: usize, _st: &VMap, _batch: u8) {}
+#[cfg(not(test))]
+fn vtrace_ttl(_t: Duration) {}
+#[cfg(test)]
+fn vtrace_ttl(t: Duration) {
+    nd::trace(|| format!("{{\"kind\":\"ttl\",\"ticks\":{}}}", verif_ticks(t)));
+}
 #[cfg(test)]
 fn jm(m: &VMap) -> String {
     let j = |c: u8| match c { 0 => "null".to_string(), 1 => "\"nil\"".to_string(), 2 => "false".to_string(), _ => "true".to_string() };
@@ -188,9 +194,10 @@ fn any_idx() -> usize {
 fn id_of(i: usize) -> SessionId {
     sid(if i == 0 { ID_A } else { ID_B })
 }
+/// a ttl of 1..=TTL_MAX ticks (quarter seconds): sub-second ttls and fractional parts included
 fn any_ttl() -> Duration {
     let t: u64 = nd::u64_in(1, TTL_MAX);
-    Duration::from_secs(t)
+    verif_duration(t as i64)
 }
 
 /// After the operation: the observable content equals the model's at `now`, and stays equal as
@@ -223,7 +230,7 @@ fn load_body(w: &World, i: usize) {
         Ok(Some(rec)) => {
             assert!(w.m.live(i, w.now), "load returned an expired or absent record");
             assert!(of_state(&rec.state) == w.m.recs[i].state, "load returned a state other than the one last written");
-            assert!(rec.ttl.as_secs() as i64 == w.m.recs[i].deadline - w.now, "load reported a wrong remaining ttl");
+            assert!(verif_ticks(rec.ttl) == w.m.recs[i].deadline - w.now, "load reported a wrong remaining ttl");
         }
         Ok(None) => assert!(!w.m.live(i, w.now), "load hid a live record"),
         Err(_) => assert!(false, "load failed"),
@@ -250,10 +257,11 @@ fn c13_write_ops() {
 fn write_body(w: &World, i: usize) {
     let id = id_of(i);
     let ttl = any_ttl();
+    vtrace_ttl(ttl);
     let st = any_vmap();
     let mut m2 = w.m;
     let live = w.m.live(i, w.now);
-    let fresh = MRec { present: true, state: st, deadline: w.now + ttl.as_secs() as i64 };
+    let fresh = MRec { present: true, state: st, deadline: w.now + verif_ticks(ttl) };
     let op: u8 = nd::u8_below(3);
     vtrace_op(["create", "update", "update_ttl"][op as usize], i, i, &st, 0);
     match op {
@@ -436,6 +444,247 @@ fn c13_delete_expired_batch2() {
     kani::cover!(n_stale == 2, "batch equal to the backlog");
 }
 
+// ------------------------------------------------------------------------------------------------
+// The concurrency clause ("concurrent callers see a history consistent with some sequential order of
+// their operations"), two callers, preemption at lock boundaries. The store protects its map with one
+// mutex; an operation is atomic exactly as long as it holds that lock from its first look at the map to
+// its last write. If it lets the lock go and takes it again, another task may run a complete operation
+// in between - the tokio shim calls `other_task` at every acquisition after the first (see
+// shims/tokio). The other task performs ONE arbitrary operation with the reference semantics; the
+// outcome (both results, the observable content now and later) must equal what one of the two
+// sequential orders gives. An operation that locks once never sees the other task: for it the harness
+// degenerates to the sequential check.
+// ------------------------------------------------------------------------------------------------
+#[derive(Clone, Copy, PartialEq, Eq)]
+struct OpD {
+    /// 0 create, 1 update, 2 update_ttl, 3 delete, 4 change_id
+    k: u8,
+    i: usize,
+    j: usize,
+    st: VMap,
+    ttl: i64,
+}
+const OP_NAMES: [&str; 5] = ["create", "update", "update_ttl", "delete", "change_id"];
+const R_OK: u8 = 0;
+const R_UNKNOWN: u8 = 1;
+const R_DUPLICATE: u8 = 2;
+const R_OTHER: u8 = 7;
+const R_NOT_RUN: u8 = 9;
+
+/// the documented semantics of one operation on the reference map
+fn model_apply(m: &Model, o: &OpD, now: i64) -> (u8, Model) {
+    let mut m2 = *m;
+    let live_i = m.live(o.i, now);
+    let fresh = MRec { present: true, state: o.st, deadline: now + o.ttl };
+    match o.k {
+        0 => {
+            if live_i {
+                (R_DUPLICATE, m2)
+            } else {
+                m2.recs[o.i] = fresh;
+                (R_OK, m2)
+            }
+        }
+        1 => {
+            if live_i {
+                m2.recs[o.i] = fresh;
+                (R_OK, m2)
+            } else {
+                (R_UNKNOWN, m2)
+            }
+        }
+        2 => {
+            if live_i {
+                m2.recs[o.i].deadline = fresh.deadline;
+                (R_OK, m2)
+            } else {
+                (R_UNKNOWN, m2)
+            }
+        }
+        3 => {
+            if live_i {
+                m2.recs[o.i] = NOREC;
+                (R_OK, m2)
+            } else {
+                (R_UNKNOWN, m2)
+            }
+        }
+        _ => {
+            if m.live(o.j, now) {
+                (R_DUPLICATE, m2)
+            } else if !live_i {
+                (R_UNKNOWN, m2)
+            } else {
+                let moved = m.recs[o.i];
+                m2.recs[o.i] = NOREC;
+                m2.recs[o.j] = moved;
+                (R_OK, m2)
+            }
+        }
+    }
+}
+
+static mut ADV_OP: OpD = OpD { k: 0, i: 0, j: 0, st: [0, 0], ttl: 1 };
+static mut ADV_NOW: i64 = 0;
+static mut ADV_RES: u8 = R_NOT_RUN;
+
+fn raw_rec(map: &HashMap<SessionId, StoreRecord>, id: u128) -> MRec {
+    match map.get(&sid(id)) {
+        Some(r) => MRec { present: true, state: of_state(&r.state), deadline: r.deadline.0 },
+        None => NOREC,
+    }
+}
+fn raw_put(map: &mut HashMap<SessionId, StoreRecord>, id: u128, before: &MRec, after: &MRec) {
+    if *before == *after {
+        return;
+    }
+    if after.present {
+        let old = map.insert(sid(id), StoreRecord { state: to_state(&after.state), deadline: Timestamp(after.deadline) });
+        std::mem::forget(old);
+    } else {
+        let old = map.remove(&sid(id));
+        std::mem::forget(old);
+    }
+}
+/// The other task: one complete operation, executed atomically on the protected map while the
+/// operation under test is between two critical sections.
+fn other_task(p: *mut ()) {
+    unsafe {
+        if ADV_RES != R_NOT_RUN {
+            return;
+        }
+        let map = &mut *(p as *mut HashMap<SessionId, StoreRecord>);
+        let cur = Model { recs: [raw_rec(map, ID_A), raw_rec(map, ID_B)] };
+        let op = ADV_OP;
+        let (res, next) = model_apply(&cur, &op, ADV_NOW);
+        raw_put(map, ID_A, &cur.recs[0], &next.recs[0]);
+        raw_put(map, ID_B, &cur.recs[1], &next.recs[1]);
+        ADV_RES = res;
+    }
+}
+
+fn any_op(kinds_lo: u8, kinds_hi: u8) -> OpD {
+    let k = kinds_lo + nd::u8_below(kinds_hi - kinds_lo);
+    OpD { k, i: any_idx(), j: any_idx(), st: any_vmap(), ttl: nd::u64_in(1, TTL_MAX) as i64 }
+}
+
+/// run the operation under test on the real store (ids as constants per branch, see `any_idx`)
+fn exec_real(s: &InMemorySessionStore, o: &OpD) -> u8 {
+    let ttl = verif_duration(o.ttl);
+    let rec = || SessionRecordRef { state: Cow::Owned(to_state(&o.st)), ttl };
+    match o.k {
+        0 => {
+            let r = if o.i == 0 { s.create(&id_of(0), rec()) } else { s.create(&id_of(1), rec()) };
+            let c = match &r { Ok(()) => R_OK, Err(CreateError::DuplicateId(_)) => R_DUPLICATE, Err(_) => R_OTHER };
+            std::mem::forget(r);
+            c
+        }
+        1 => {
+            let r = if o.i == 0 { s.update(&id_of(0), rec()) } else { s.update(&id_of(1), rec()) };
+            let c = match &r { Ok(()) => R_OK, Err(UpdateError::UnknownIdError(_)) => R_UNKNOWN, Err(_) => R_OTHER };
+            std::mem::forget(r);
+            c
+        }
+        2 => {
+            let r = if o.i == 0 { s.update_ttl(&id_of(0), ttl) } else { s.update_ttl(&id_of(1), ttl) };
+            let c = match &r { Ok(()) => R_OK, Err(UpdateTtlError::UnknownId(_)) => R_UNKNOWN, Err(_) => R_OTHER };
+            std::mem::forget(r);
+            c
+        }
+        3 => {
+            let r = if o.i == 0 { s.delete(&id_of(0)) } else { s.delete(&id_of(1)) };
+            let c = match &r { Ok(()) => R_OK, Err(DeleteError::UnknownId(_)) => R_UNKNOWN, Err(_) => R_OTHER };
+            std::mem::forget(r);
+            c
+        }
+        _ => {
+            let r = match (o.i, o.j) {
+                (0, 0) => s.change_id(&id_of(0), &id_of(0)),
+                (0, _) => s.change_id(&id_of(0), &id_of(1)),
+                (_, 0) => s.change_id(&id_of(1), &id_of(0)),
+                _ => s.change_id(&id_of(1), &id_of(1)),
+            };
+            let c = match &r { Ok(()) => R_OK, Err(ChangeIdError::UnknownId(_)) => R_UNKNOWN, Err(ChangeIdError::DuplicateId(_)) => R_DUPLICATE, Err(_) => R_OTHER };
+            std::mem::forget(r);
+            c
+        }
+    }
+}
+
+fn views_match(pa: &MRec, pb: &MRec, m: &Model, now: i64, later: i64) -> bool {
+    view_at(pa, now) == m.view(0, now) && view_at(pb, now) == m.view(1, now) && view_at(pa, later) == m.view(0, later) && view_at(pb, later) == m.view(1, later)
+}
+
+#[cfg(not(test))]
+fn vtrace_race(_o: &OpD, _a: &OpD) {}
+#[cfg(test)]
+fn vtrace_race(o: &OpD, a: &OpD) {
+    let l = |i: usize| if i == 0 { "A" } else { "B" };
+    let f = |o: &OpD| format!("{{\"name\":\"{}\",\"id\":\"{}\",\"to\":\"{}\",\"state\":{},\"ttl_ticks\":{}}}", OP_NAMES[o.k as usize], l(o.i), l(o.j), jm(&o.st), o.ttl);
+    nd::trace(|| format!("{{\"kind\":\"race\",\"ours\":{},\"other\":{}}}", f(o), f(a)));
+}
+
+fn interleaved_body(kinds_lo: u8, kinds_hi: u8) {
+    let w = any_world();
+    let o = any_op(kinds_lo, kinds_hi);
+    let a = any_op(0, 5);
+    vtrace_race(&o, &a);
+    unsafe {
+        ADV_OP = a;
+        ADV_NOW = w.now;
+        ADV_RES = R_NOT_RUN;
+        tokio::verif::LOCKS = 0;
+        tokio::verif::ON_RELOCK = Some(other_task);
+    }
+    let r = exec_real(&w.s, &o);
+    unsafe { tokio::verif::ON_RELOCK = None };
+    let ar = unsafe { ADV_RES };
+    let (pa, pb) = (phys(&w.s, 0), phys(&w.s, 1));
+    let later: i64 = nd::i64_in(w.now, T_MAX + TTL_MAX as i64 + 1);
+    if ar == R_NOT_RUN {
+        // one critical section: nobody can get in between
+        let (want, m2) = model_apply(&w.m, &o, w.now);
+        assert!(r == want, "the operation's result differs from the reference map's");
+        assert!(views_match(&pa, &pb, &m2, w.now, later), "the observable content differs from the reference map's");
+    } else {
+        // the other task ran between two critical sections of the operation under test
+        let (ra1, m1) = model_apply(&w.m, &a, w.now);
+        let (ro1, m1) = model_apply(&m1, &o, w.now);
+        let (ro2, m2) = model_apply(&w.m, &o, w.now);
+        let (ra2, m2) = model_apply(&m2, &a, w.now);
+        let other_first = r == ro1 && ar == ra1 && views_match(&pa, &pb, &m1, w.now, later);
+        let ours_first = r == ro2 && ar == ra2 && views_match(&pa, &pb, &m2, w.now, later);
+        assert!(other_first || ours_first, "an operation that lets go of the store lock midway produced an outcome that no sequential order of the two callers explains");
+    }
+    kani::cover!(r == R_OK, "the operation under test succeeds");
+    kani::cover!(r != R_OK, "the operation under test is refused");
+    std::mem::forget(w);
+}
+
+// @tier quick
+// @obligation two callers, preemption at lock boundaries: create / update / update_ttl with another task running one arbitrary complete operation (create, update, update_ttl, delete, change_id on either id) whenever the operation under test re-acquires the store lock: both results and the observable content (now and at any later instant) equal those of one of the two sequential orders
+// @bounds as c13_write_ops; the other task performs at most one operation; interference only between two lock acquisitions of the same operation (the mutex excludes everything else)
+// @functions InMemorySessionStore::{create,update,update_ttl}, tokio::sync::Mutex::lock (interference hook)
+// @timeout 1800
+#[kani::proof]
+#[kani::unwind(4)]
+#[kani::stub(std::fmt::format, fmt_stub)]
+fn c13_interleaved_writes() {
+    interleaved_body(0, 3);
+}
+
+// @tier quick
+// @obligation as c13_interleaved_writes, for delete and change_id as the operation under test
+// @bounds as c13_change_id; the other task performs at most one operation
+// @functions InMemorySessionStore::{delete,change_id,_delete}, tokio::sync::Mutex::lock (interference hook)
+// @timeout 1800
+#[kani::proof]
+#[kani::unwind(4)]
+#[kani::stub(std::fmt::format, fmt_stub)]
+fn c13_interleaved_delete_change_id() {
+    interleaved_body(3, 5);
+}
+
 /// Native search for a concrete failing input (see nd.rs); only built when a counterexample has to
 /// be made concrete.
 #[cfg(test)]
@@ -450,6 +699,10 @@ mod native_search {
     fn c13_delete() { nd::search("c13_delete", super::c13_delete, reset) }
     #[test]
     fn c13_change_id() { nd::search("c13_change_id", super::c13_change_id, reset) }
+    #[test]
+    fn c13_interleaved_writes() { nd::search("c13_interleaved_writes", super::c13_interleaved_writes, reset) }
+    #[test]
+    fn c13_interleaved_delete_change_id() { nd::search("c13_interleaved_delete_change_id", super::c13_interleaved_delete_change_id, reset) }
     #[test]
     fn c13_delete_expired_all() { nd::search("c13_delete_expired_all", super::c13_delete_expired_all, reset) }
     #[test]
